@@ -194,7 +194,7 @@ fn main() {
         }
     } else {
         // stream A: call trees
-        for k in 0..args.scale(70, 550) {
+        for k in 0..args.scale(70, 400) {
             let n = rng.range(1, 4) as usize;
             let recursion = match k % 5 { 0 => 0, 1 => rng.range(1, 4), 2 => rng.range(5, 12), 3 => rng.range(10, 20), _ => rng.range(20, 27) };
             let cfg = TreeCfg { n_contracts: n, recursion, hostile: Hostile::None, hostile_unit: 0, ldc: rng.chance(1, 4),
@@ -205,7 +205,7 @@ fn main() {
             run_scenario(&mut out, &mut st, &t.scn.world, &t.scn.tx, rj, "tree", oo);
         }
         // stream B: vmtrace's grammar (random register contents, all instruction kinds between calls)
-        for _ in 0..args.scale(50, 400) {
+        for _ in 0..args.scale(50, 300) {
             let mut cfg = GenCfg::default();
             cfg.n_contracts = rng.range(1, 4) as usize;
             cfg.unit_items = rng.range(4, 16) as usize;
